@@ -198,7 +198,9 @@ func (c *channel) drainSendQ() {
 func (c *channel) routeOwnResponse(msgID uint64, resp response) {
 	c.responseMut.Lock()
 	defer c.responseMut.Unlock()
+	vRouteMiss(c, msgID)
 	if router, ok := c.responseRouters[msgID]; ok {
+		vEmit("Route", c.node.ID(), msgID, "found", true, "streaming", router.streaming, "why", "resp", "err", resp.err != nil, "empty", false)
 		select {
 		case router.c <- resp:
 		default:
